@@ -93,6 +93,10 @@ pub fn run(ctx: &Ctx, rep: &mut Reporter) -> Json {
             let w = crate::props::c02::corpus_window(&d, &mut rng, 12_000);
             rep.count("large_mappings", 1);
             ("corpus-window-large".to_string(), w)
+        } else if case_idx % 8 == 3 {
+            // two large methods with inline chains at many positions of their entry lists
+            let n = *rng.pick(&[16usize, 33, 64]);
+            ("ast-ranged-groups".to_string(), pgvcore::ast::ranged_group_ast(&mut rng, n).print_lf())
         } else {
             gen_input(ctx, case_idx * 4 + (case_idx % 3), &mut rng)
         };
@@ -310,6 +314,54 @@ fn one_mapping(text: &[u8], rng: &mut Rng, rep: &mut Reporter, case_idx: u64, ct
             .collect();
         hs.into_iter().map(|h| h.join().expect("query thread")).collect()
     });
+    // ---- hammer: a handful of by-line queries with multi-frame answers (inline chains) on
+    // different methods, asked tens of thousands of times by all threads without pauses —
+    // "few keys, many threads" for whatever a handle remembers between lookups
+    {
+        let multi = |a: &str| a.matches("NFrame").count() >= 2;
+        let mut hot: Vec<usize> = (0..batch.len()).filter(|i| matches!(batch[*i], Q::Line(..)) && multi(&exp_m[*i])).collect();
+        hot.dedup_by_key(|i| format!("{:?}", batch[*i]));
+        hot.truncate(4);
+        let single: Vec<usize> = (0..batch.len()).filter(|i| matches!(batch[*i], Q::Line(..)) && !multi(&exp_m[*i]) && exp_m[*i].contains("NFrame")).take(3).collect();
+        if !hot.is_empty() && hot.len() + single.len() >= 2 {
+            let keys: Vec<usize> = hot.iter().chain(single.iter()).copied().collect();
+            let iters = if ctx.variant == "miri" { 6 } else if ctx.variant == "tsan" { 2_000 } else { 30_000 };
+            let bad: Vec<(usize, bool)> = std::thread::scope(|s| {
+                let hs: Vec<_> = (0..nthreads)
+                    .map(|t| {
+                        let (mapper, cache, batch, exp_m, exp_c, keys, barrier) = (&mapper, &cache, &batch, &exp_m, &exp_c, &keys, &barrier);
+                        s.spawn(move || {
+                            let mut r = Rng::new(0x9e37 + t as u64);
+                            let mut bad = vec![];
+                            barrier.wait();
+                            for _ in 0..iters {
+                                let i = keys[r.below(keys.len())];
+                                let use_cache = r.chance(1, 2);
+                                let ok = if use_cache { answer(&cache.0, &batch[i]) == exp_c[i] } else { answer(&mapper.0, &batch[i]) == exp_m[i] };
+                                if !ok && bad.len() < 3 {
+                                    bad.push((i, use_cache));
+                                }
+                            }
+                            bad
+                        })
+                    })
+                    .collect();
+                hs.into_iter().flat_map(|h| h.join().expect("hammer thread")).collect()
+            });
+            rep.count("evaluations", (iters * nthreads) as u64);
+            rep.count("hammered_lookups_of_inline_chain_lines", (iters * nthreads) as u64);
+            rep.count("mappings_hammered", 1);
+            for (i, use_cache) in bad {
+                let mut d = Json::obj();
+                d.set("query", Json::s(format!("{:?}", batch[i]).chars().take(3000).collect::<String>()));
+                d.set("implementation", Json::s(if use_cache { "cache" } else { "mapper" }));
+                d.set("threads", Json::i(nthreads as u64));
+                d.set("keys_hammered", Json::i(keys.len() as u64));
+                d.set("sequential_answer_head", Json::s((if use_cache { &exp_c[i] } else { &exp_m[i] }).chars().take(3000).collect::<String>()));
+                rep.violation(case_idx, "concurrent-vs-sequential", &format!("a query issued concurrently returned a different answer than when issued alone impl={}", if use_cache { "cache" } else { "mapper" }), d);
+            }
+        }
+    }
     // compare and measure what was observed
     let mut by_key: std::collections::HashMap<(usize, bool), Vec<(u64, u64, usize)>> = Default::default();
     let mut order: Vec<(u64, usize)> = vec![];
